@@ -2996,7 +2996,11 @@ class MemoryObjectStore(PackCapableObjectStore):
                     # ``add_thin_pack`` already validates via
                     # ``PackStreamCopier.verify``; do the equivalent here.
                     p.check()
-                    for obj in PackInflater.for_pack_data(p, self.get_raw):
+                    # Inflate every object before adding any, so that a pack
+                    # that fails part-way (e.g. a delta with a missing base)
+                    # leaves the store unchanged.
+                    objects = list(PackInflater.for_pack_data(p, self.get_raw))
+                    for obj in objects:
                         self.add_object(obj)
                 finally:
                     p.close()
